@@ -12,6 +12,12 @@ import asmtab
 DONE_PC = 0x7fffffff
 
 
+class Ctl(str):
+    """a control line of a resumable instance (label, yield point, terminator): emitted as is; plain strings are statements
+    that execute only in RUN mode (walk scheme)"""
+    pass
+
+
 def san(n):
     return re.sub(r'[^A-Za-z0-9_]', '_', n)
 
@@ -158,20 +164,23 @@ class Emitter:
             T.need_complete(g.ty)
             ct = T.ct(g.ty)
             nm = s.gname(n)
-            dims = '[%d]' % s.nslots if g.tls else ''
+            # thread-local variables: one separate C object per thread slot (never an array indexed by slot: a pointer that may
+            # refer to several elements of one array object makes CBMC lose the constant offset and fall back to byte-level
+            # extraction over the whole array)
+            names = ['%s__s%d' % (nm, k) for k in range(s.nslots)] if g.tls else [nm]
             if g.external:
-                lines.append('%s %s%s;' % (ct, nm, dims))
+                for x in names:
+                    lines.append('%s %s;' % (ct, x))
                 continue
             init = ''
             if g.init is not None and not isinstance(g.init, (CZero, CStr, CUndef)):
                 try:
                     iv = s.cinit(g.init, g.ty)
-                    if g.tls:
-                        iv = '{' + ', '.join([iv] * s.nslots) + '}'
                     init = ' = ' + iv
                 except Unsupported as e:
                     s.warnings.append('initialiser of %s dropped: %s' % (n, e))
-            lines.append('%s %s%s%s;' % (ct, nm, dims, init))
+            for x in names:
+                lines.append('%s %s%s;' % (ct, x, init))
         return lines
 
     def cinit(s, v, ty):
@@ -223,7 +232,7 @@ class Emitter:
                 if g.tls:
                     if ctx is None:
                         raise Unsupported('TLS address in initialiser')
-                    return '(&%s[%d])' % (s.gname(n), ctx.slot)
+                    return '(&%s__s%d)' % (s.gname(n), ctx.slot)
                 return '(&%s)' % s.gname(n)
             if n in s.mod.functions or n in s.mod.declares:
                 s.fa.add(n)
@@ -481,15 +490,45 @@ class Inst:
             else:
                 decls.append('%s%s %s;' % (sto, 'void *' if s.isp(n) else T.ct(t), s.raw(n)))
         # blocks
+        s.walk = s.resumable and s.em.spec.get('emit_scheme', 'walk') == 'walk'
+        s.vis_block = {}
+        s.cur_block = None
         for b in f.blocks:
-            body.append('%s: ;' % s.lab(b.label))
+            s.cur_block = b.label
+            body.append(Ctl('%s: ;' % s.lab(b.label)))
             for ins in b.instrs:
                 if ins.op == 'phi':
                     continue
                 s.emit_instr(b, ins)
         name = '%s_run' % s.prefix if s.resumable else s.prefix
         out = []
-        if s.resumable:
+        if s.resumable and s.walk:
+            s._walk_tables()
+            out.append('/* instance %s: %s on slot %d (resumable/walk, %d visible steps) */' %
+                       (s.prefix, f.name, s.slot, s.nvis))
+            out += decls + s.extra
+            out.append('static uint32_t %s_pc;' % s.prefix)
+            out.append('static void %s(void) {' % name)
+            out += ['  ' + l for l in locals_]
+            out.append('  uint8_t m = (%s_pc == 0) ? RT_RUN : RT_SKIP;' % s.prefix)
+            grp = []
+
+            def flush():
+                if grp:
+                    out.append('  if (m == RT_RUN) {')
+                    out.extend('    ' + g for g in grp)
+                    out.append('  }')
+                    del grp[:]
+            for l in body:
+                if isinstance(l, Ctl):
+                    flush()
+                    out.append('  ' + s._subst_hops(l))
+                else:
+                    grp.append(l)
+            flush()
+            out.append('  OUT: return;')
+            out.append('}')
+        elif s.resumable:
             out.append('/* instance %s: %s on slot %d (resumable, %d visible steps) */' %
                        (s.prefix, f.name, s.slot, s.nvis))
             out += decls + s.extra
@@ -517,6 +556,82 @@ class Inst:
                    'cname': name}
         return '\n'.join(out)
 
+    # -------------------------------------------------------------- walk scheme (DESIGN 2.3)
+    def _walk_tables(s):
+        """forward-edge reachability between blocks; which visible points live in which block"""
+        f = s.f
+        idx = s.bindex
+        succ = {b.label: [t for t in (successors(b.instrs[-1]) if b.instrs else [])] for b in f.blocks}
+        fwd = {l: [t for t in ts if idx[t] > idx[l]] for l, ts in succ.items()}
+        reach = {}
+        for b in reversed(f.blocks):
+            r = {b.label}
+            for t in fwd[b.label]:
+                r |= reach[t]
+            reach[b.label] = r
+        s.reach = reach
+        # distance to an exit (block without successors) along forward edges
+        dist = {}
+        for b in reversed(f.blocks):
+            if not succ[b.label]:
+                dist[b.label] = 0
+            else:
+                ds = [dist[t] + 1 for t in fwd[b.label] if t in dist]
+                # a block whose successors are all back-edges leaves through OUT directly when stopped
+                dist[b.label] = min(ds) if ds else 1
+        s.exit_dist = dist
+        entry = f.blocks[0].label
+        for k, bl in s.vis_block.items():
+            if bl not in reach[entry]:
+                raise Unsupported('walk scheme: block %s of visible point %d is not reachable from the entry by forward edges' % (bl, k))
+        for b in f.blocks:
+            if b.label in reach[entry] and b.label not in dist:
+                raise Unsupported('walk scheme: block %s cannot reach an exit by forward edges' % b.label)
+
+    def _ranges(s, ks):
+        ks = sorted(ks)
+        out = []
+        i = 0
+        while i < len(ks):
+            j = i
+            while j + 1 < len(ks) and ks[j + 1] == ks[j] + 1:
+                j += 1
+            if i == j:
+                out.append('%s_pc == %d' % (s.prefix, ks[i]))
+            else:
+                out.append('(%s_pc >= %d && %s_pc <= %d)' % (s.prefix, ks[i], s.prefix, ks[j]))
+            i = j + 1
+        return ' || '.join(out) if out else '0'
+
+    def _subst_hops(s, line):
+        """replace @@HOP:<block>@@ by the mode-dependent successor choice of that block's terminator"""
+        import re as _re
+
+        def rep(mo):
+            bl = mo.group(1)
+            b = s.f.block(bl)
+            succ = successors(b.instrs[-1])
+            idx = s.bindex
+            fw = [t for t in succ if idx[t] > idx[bl]]
+            if not fw:
+                return 'goto OUT;'
+            # SKIP: toward the block holding the resume point
+            parts = []
+            assigned = set()
+            for t in fw:
+                ks = [k for k, kb in s.vis_block.items() if kb in s.reach[t] and k not in assigned]
+                assigned |= set(ks)
+                parts.append((t, ks))
+            skip = ''
+            for t, ks in parts[:-1]:
+                if ks:
+                    skip += 'if (%s) goto %s; else ' % (s._ranges(ks), s.lab(t))
+            skip += 'goto %s;' % s.lab(parts[-1][0])
+            # STOP: shortest forward way out
+            best = min(fw, key=lambda t: s.exit_dist.get(t, 1 << 30))
+            return 'if (m == RT_SKIP) { %s } else goto %s;' % (skip, s.lab(best))
+        return _re.sub(r'@@HOP:([^@]+)@@', rep, line)
+
     # -------------------------------------------------------------- helpers
     def v(s, x):
         return s.em.val(x, s)
@@ -527,20 +642,31 @@ class Inst:
         s.nvis += 1
         k = s.nvis
         s.vis_desc.append(desc)
-        s.body.append('V%d: if (RT_YIELD()) { %s_pc = %d; return; } RT_STEP(%d); /* %s */' %
-                      (k, s.prefix, k, s.slot, desc.replace('*/', '* /')[:90]))
+        s.vis_block[k] = s.cur_block
+        d = desc.replace('*/', '* /')[:90]
+        if s.walk:
+            s.body.append(Ctl('if (m == RT_SKIP && %s_pc == %d) m = RT_RUN; if (m == RT_RUN && RT_YIELD()) { %s_pc = %d; m = RT_STOP; } '
+                              'if (m == RT_RUN) { RT_STEP(%d); } /* V%d %s */' % (s.prefix, k, s.prefix, k, s.slot, k, d)))
+        else:
+            s.body.append('V%d: if (RT_YIELD()) { %s_pc = %d; return; } RT_STEP(%d); /* %s */' % (k, s.prefix, k, s.slot, d))
         return k
 
     def spin_yield(s):
         """spin hint in resumable mode: the thread gives up the processor here and resumes right after the hint
-        (no budget check on resume), so one turn executes at most one iteration of a busy-wait loop"""
+        (no budget check on resume), so one turn executes at most one iteration of a busy-wait loop.
+        In a solo turn the first hint is ignored (nobody else runs: if the awaited event already happened the
+        loop exits at its re-check, otherwise the second hint ends the turn)"""
         s.nvis += 1
         k = s.nvis
         s.vis_desc.append('spin hint')
-        # in a solo turn the first hint is ignored (nobody else runs: if the awaited event already happened the
-        # loop exits at its re-check, otherwise the second hint ends the turn)
-        s.body.append('if (rt_solo && !rt_spun[%d]) { rt_spun[%d] = 1; } else { %s_pc = %d; rt_spun[%d] = 1; return; } V%d: ; /* resume after spin hint */'
-                      % (s.slot, s.slot, s.prefix, k, s.slot, k))
+        s.vis_block[k] = s.cur_block
+        if s.walk:
+            s.body.append('if (rt_solo && !rt_spun[%d]) { rt_spun[%d] = 1; } else { %s_pc = %d; rt_spun[%d] = 1; m = RT_STOP; }'
+                          % (s.slot, s.slot, s.prefix, k, s.slot))
+            s.body.append(Ctl('if (m == RT_SKIP && %s_pc == %d) m = RT_RUN; /* V%d resume after spin hint */' % (s.prefix, k, k)))
+        else:
+            s.body.append('if (rt_solo && !rt_spun[%d]) { rt_spun[%d] = 1; } else { %s_pc = %d; rt_spun[%d] = 1; return; } V%d: ; /* resume after spin hint */'
+                          % (s.slot, s.slot, s.prefix, k, s.slot, k))
 
     def _loop_class(s, frm, to):
         """classify the back-edge frm->to: 'w' if the loop body (layout range header..source) contains a busy-wait hint or a
@@ -722,9 +848,13 @@ class Inst:
         if op == 'br':
             tg = ins.x['targets']
             if len(tg) == 1:
-                body.append(s.edge(b.label, tg[0]))
+                txt = s.edge(b.label, tg[0])
             else:
-                body.append('if (%s) %s else %s' % (s.v(ins.args[0]), s.edge(b.label, tg[0]), s.edge(b.label, tg[1])))
+                txt = 'if (%s) %s else %s' % (s.v(ins.args[0]), s.edge(b.label, tg[0]), s.edge(b.label, tg[1]))
+            if s.resumable and s.walk:
+                body.append(Ctl('if (m == RT_RUN) { %s } @@HOP:%s@@' % (txt, b.label)))
+            else:
+                body.append(txt)
             return
         if op == 'switch':
             x = s.v(ins.args[0])
@@ -732,10 +862,15 @@ class Inst:
             for c, l in ins.x['cases']:
                 parts.append('if (%s == %s) %s' % (x, em.cint(c, ins.args[0].ty), s.edge(b.label, l)))
             parts.append(s.edge(b.label, ins.x['default']))
-            body.append(' else '.join(parts))
+            if s.resumable and s.walk:
+                body.append(Ctl('if (m == RT_RUN) { %s } @@HOP:%s@@' % (' else '.join(parts), b.label)))
+            else:
+                body.append(' else '.join(parts))
             return
         if op == 'ret':
-            if s.resumable:
+            if s.resumable and s.walk:
+                body.append(Ctl('if (m == RT_RUN) %s_pc = %d; goto OUT;' % (s.prefix, DONE_PC)))
+            elif s.resumable:
                 body.append('%s_pc = %d; return;' % (s.prefix, DONE_PC))
             elif ins.args:
                 body.append('return %s;' % s.v(ins.args[0]))
@@ -744,7 +879,9 @@ class Inst:
             return
         if op == 'unreachable':
             body.append('RT_UNREACHABLE();')
-            if s.resumable:
+            if s.resumable and s.walk:
+                body.append(Ctl('goto OUT;'))
+            elif s.resumable:
                 body.append('%s_pc = %d; return;' % (s.prefix, DONE_PC))
             elif isinstance(s.f.fty.ret, VoidT):
                 body.append('return;')
@@ -883,7 +1020,10 @@ class Inst:
         if n in ('abort', '__assert_fail'):
             body.append('RT_ASSUME(0); /* the process is gone */')
         if n == 'pthread_exit':
-            if s.resumable:
+            if s.resumable and s.walk:
+                body.append('%s_pc = %d; m = RT_STOP;' % (s.prefix, DONE_PC))
+                body.append(Ctl('/* after pthread_exit */'))
+            elif s.resumable:
                 body.append('%s_pc = %d; return;' % (s.prefix, DONE_PC))
             else:
                 body.append('RT_ASSERT(0, "pthread_exit in sequential code"); RT_ASSUME(0);')
@@ -938,7 +1078,12 @@ class Inst:
             body.append('%s(%s)%d;' % (res, T.ct(ins.ty), s.slot))
 
     def block_check(s):
-        if s.resumable:
+        if s.resumable and s.walk:
+            s.body.append('if (rt_block) { rt_block = 0; rt_blocked[%d] = 1; %s_pc = %d; m = RT_STOP; }' %
+                          (s.slot, s.prefix, s.nvis))
+            # statements after a blocking primitive must not run when it blocked: close the RUN group here
+            s.body.append(Ctl('/* after blocking primitive */'))
+        elif s.resumable:
             s.body.append('if (rt_block) { rt_block = 0; rt_blocked[%d] = 1; %s_pc = %d; return; }' %
                           (s.slot, s.prefix, s.nvis))
 
@@ -980,7 +1125,10 @@ class Inst:
                 else:
                     body.append('%s = (uint8_t *)RT_ALLOC(%s * %s, 1);' % (r, s.v(args[0]), s.v(args[1])))
             return
-        raise Unsupported('allocator %s' % n)
+        # not modelled: fails closed if it is ever reached
+        body.append('RT_ASSERT(0, "%s reached but not modelled"); RT_ASSUME(0);' % n)
+        if r is not None:
+            body.append('%s = 0;' % r)
 
     def emit_intrinsic(s, n, ins):
         em = s.em; T = em.T; body = s.body
